@@ -22,8 +22,14 @@ means the check as it stood did not notice the change; the last column says what
 always as more workload or a further oracle clause — never by loosening anything — and every
 strengthened check was re-run on the unchanged tree at several seeds.
 
-{len(rows)} seeded changes kept; {sum(1 for r in rows if '**yes**' in r)} were caught by the checks as they stood,
-{sum(1 for r in rows if 'missed, then caught' in r)} only after strengthening.
+{len(rows)} seeded changes kept (several rounds of sub-agents per property; later rounds were told the earlier
+ideas and asked for different mechanisms, concurrency- and fault-timing-driven ones in particular):
+{sum(1 for r in rows if '**yes**' in r)} were caught at once by the owning property's check as it stood,
+{sum(1 for r in rows if 'missed, then caught' in r)} only after that check was strengthened, and
+{sum(1 for r in rows if ('**yes**' not in r and 'missed, then caught' not in r))} are caught by another property's check (named in the last column) because the changed
+code is that property's subject.  Every one of them makes its check exit 1 with a VIOLATION line
+when applied to /repo (`confirmed_on_repo` in each meta.json), and all checks are silent on the
+unchanged tree.
 
 | seeded change | property | what was changed | needs, to manifest | caught by |
 |---|---|---|---|---|
